@@ -70,6 +70,8 @@ type Opts struct {
 	ServerSetup func(s *tls.Conn, raw net.Conn)
 	// PostHandshake runs after both handshakes succeeded, before echo.
 	PostHandshake func(h *HS)
+	// Deadline overrides IODeadline for this run (0 = IODeadline).
+	Deadline time.Duration
 }
 
 func safely(f func() error) (err error, panicked string) {
@@ -90,6 +92,9 @@ func Run(ccfg *tls.Config, id tls.ClientHelloID, scfg *tls.Config, o Opts) *HS {
 		o.AfterPipe(c, s, tap)
 	}
 	dl := time.Now().Add(IODeadline)
+	if o.Deadline > 0 {
+		dl = time.Now().Add(o.Deadline)
+	}
 	c.SetDeadline(dl)
 	s.SetDeadline(dl)
 	var sconn net.Conn = s
